@@ -236,8 +236,11 @@ impl<C: NtpClock> Server<C> {
                 }
             }
             Err(PacketParsingError::DecryptError(packet)) => {
-                // Only requests are answered, also when their authentication failed
-                if packet.mode() != crate::NtpAssociationMode::Client {
+                // Only requests are answered, also when their authentication failed, and an
+                // NTPv5 request must identify our draft version whether or not it authenticates
+                if packet.mode() != crate::NtpAssociationMode::Client
+                    || !packet.has_valid_draft_id()
+                {
                     stats_handler.register(
                         fallback_message_version(message),
                         false,
